@@ -562,7 +562,51 @@ func VsymC18Raw() {
 	vr.Assert(len(envkit.Env.SignerChain) == nChain && string(envkit.Env.SignerSig) == string(pl.sigResp.Signature), "the envelope received the plugin's signature and chain")
 }
 
+// VsymC18Sequence: one PluginSigner used for several signings. What the plugin answers to describe-key is drawn
+// anew for every signing (the key behind a key id may be rotated, a plugin may answer for another key): every
+// signing is judged on the answers given to it - a refusal is not forgotten on the retry, and the key spec and
+// hash sent to generate-signature are those of the key as described now.
+func VsymC18Sequence() {
+	envkit.Reset()
+	envkit.Install()
+	pl := &c18Plugin{}
+	pl.meta = plugin.GetMetadataResponse{Name: "foo", Version: "1.0.0", Capabilities: []plugin.Capability{plugin.CapabilitySignatureGenerator}}
+	reqType := vr.OneOf("requestedType", envkit.JWS, envkit.COSE)
+	desc := ocispec.Descriptor{MediaType: c18MT, Digest: c18DigestA, Size: 7}
+	pl.sigResp = plugin.GenerateSignatureResponse{KeyID: c18KeyID, Signature: vr.Token("rawSignature"), CertificateChain: [][]byte{envkit.CertBlob("cert", true)}}
+	s, err := NewPluginSigner(pl, c18KeyID, nil)
+	if err != nil {
+		panic("NewPluginSigner: " + err.Error())
+	}
+	specs := []int{0, 4, 8} // RSA-2048, EC-384, an undecodable key spec
+	n := vr.Param("signings", 2)
+	for i := 0; i < n; i++ {
+		ksIdx := specs[vr.Choice("keySpecNow", len(specs))]
+		keyID := []string{c18KeyID, "key-2", ""}[vr.Choice("describedKeyIDNow", 3)]
+		pl.descResp = plugin.DescribeKeyResponse{KeyID: keyID, KeySpec: plugin.KeySpec(c18KeySpecs[ksIdx])}
+		before := len(pl.sigReqs)
+		sig, info, err := s.Sign(context.Background(), desc, notation.SignerSignOptions{SignatureMediaType: reqType})
+		want := keyID == c18KeyID && ksIdx < 6
+		vr.Assert((err == nil) == want, "every signing through the same signer succeeds iff the plugin answers describe-key for the requested key id with a decodable key spec - whatever it answered to earlier signings")
+		if err != nil {
+			vr.Assert(sig == nil && info == nil, "an error comes without signature and signer info")
+			vr.Reach("refused in a sequence")
+			continue
+		}
+		if !want {
+			return
+		}
+		vr.Assert(len(pl.sigReqs) == before+1, "one generate-signature call per signing")
+		r := pl.sigReqs[len(pl.sigReqs)-1]
+		vr.Assert(r.KeyID == c18KeyID && string(r.KeySpec) == c18KeySpecs[ksIdx] && string(r.Hash) == c18Hashes[ksIdx], "generate-signature is asked with the key spec and hash of the key as the plugin describes it for this signing")
+		if i > 0 {
+			vr.Reach("signed again through the same signer")
+		}
+	}
+}
+
 func init() {
+	vsymHarnesses["VsymC18Sequence"] = VsymC18Sequence
 	vsymHarnesses["VsymC18Envelope"] = VsymC18Envelope
 	vsymHarnesses["VsymC18Raw"] = VsymC18Raw
 }
